@@ -98,3 +98,10 @@ def decorated(a=Option("A")):
 
 
 explicit = dataset(body_f1, defaults={"a0": Option("A")})
+
+
+# a CYCLIC object graph: the overload registered under "smoothed" is computed from a derivative of the very dataset
+# it is registered on (derivatives share the dataset's overload table)
+cyc_src = dataset(body_f0, dispatch=Option("SOURCE"))
+cyc_smooth = dataset(body_h1, defaults={"a0": cyc_src.with_options({"SOURCE": "raw"})})
+cyc_src.register("smoothed", cyc_smooth)
